@@ -122,9 +122,11 @@ class Model:
                 self.expect = {"cls": "Signal"}
             if intensity:
                 rkw["intensity"] = True
-            lsb_arg = lsb if isinstance(lsb, bool) else lsb.reshape(info["shape"][1:])
+            lsb_arg = lsb if isinstance(lsb, bool) else lsb.reshape(info["shape"][1:]).copy()
             with lib("BasebandReader(...)"):
                 self.r = pb.readers.BasebandReader(names, lower_sideband=lsb_arg, **rkw)
+            if not isinstance(lsb_arg, bool):
+                lsb_arg[...] = ~lsb_arg  # the caller re-uses its own mask array afterwards: the reader keeps what it was configured with
             self.squeezed = info["shape"][1:] == ()
             if info["complex"] or intensity:
                 ref = raw.astype(np.complex64 if info["complex"] else np.float32)
@@ -282,7 +284,12 @@ class ReaderHist:
             back3 = r.offset_at(r.time_at(k, unit=u.us))
             c = r.contains(t)
             c2 = t in r
+            # the same instant written in other time scales
+            back4, back5 = r.offset_at(t.tai), r.offset_at(t.tt)
+            c3 = r.contains(t.tai)
         check(back == k and back2 == k and back3 == k, "offset_at(time_at({})) = {} / via relative time {} / {}", k, back, back2, back3)
+        check(back4 == k and back5 == k and bool(c3) == bool(c), "offset_at(time_at({}) written in TAI / TT) = {} / {}; contains(TAI) = {} vs {}", k, back4, back5,
+              bool(c3), bool(c))
         check(abs(O.T(t) - (self.m.T0 + k / self.m.expect["rate"])) <= O.time_tol(1, k / self.m.expect["rate"]), "time_at({}) wrong", k)
         check(bool(c) == (k < L) and bool(c2) == (k < L), "contains(time_at({})) = {} for length {}", k, bool(c), L)
 
